@@ -88,6 +88,12 @@ def behaviour(rnd):
         e = env(rnd)
         if not slot and rnd.random() < 0.06:
             # the environment changes: enrolment into user verification, presence support, the store's capability
+            if rnd.random() < 0.4:
+                # ... or another authenticator object, configured differently, takes over the store
+                cers.append({"api": "env", "op": "rebuild", "env": env(random.Random(2)),
+                             "req": {"hmac": rnd.choice(["off", "uvonly", "withoutuv"]), "idLen": rnd.choice([16, 32, 64]),
+                                     "counterOn": rnd.random() < 0.5}})
+                continue
             cers.append({"api": "env", "op": "reconfig", "env": env(random.Random(2)),
                          "req": {"uvCap": rnd.choice(["configured", "configured", "unconfigured", "none"]), "upCap": rnd.random() < 0.9,
                                  "disc": rnd.choice(["full", "nondisc", "forced"])}})
@@ -118,7 +124,7 @@ def behaviour(rnd):
             cp = {"kind": kind, "eval": rnd.choice(["absent", "one", "two"]) if kind != "absent" else "absent", "byCred": by,
                   "byCredGiven": given, "badlen": kind in ("hashed", "both") and rnd.random() < 0.3}
             r.update({"rp": rp, "origin": o, "rpid": rpid, "dom": dom, "chal": rnd.choice(["c0", "c1", "c32", "c1024"]),
-                      "authSel": rnd.random() < 0.7, "residentKey": rnd.choice(["absent", "discouraged", "preferred", "required"]),
+                      "authSel": rnd.random() < 0.7, "residentKey": rnd.choice(["absent", "discouraged", "preferred", "required", "unknown"]),
                       "requireRk": rnd.random() < 0.5, "uvreq": rnd.choice(["required", "preferred", "discouraged"]),
                       "credProps": rnd.choice(["absent", "false", "true"]), "cdmode": rnd.choice(["default", "extra", "extra0", "hash"]),
                       "cprf": cp, "pinAuth": False, "hs": "absent", "up": True,
